@@ -3,9 +3,10 @@
 (* Verdict for C17 (and binding of the ring half) over vectors recorded    *)
 (* from the REAL code (c17_vectors.ndjson).  op "ring": server/ringhash    *)
 (* (Go harness TestVerifC17Ring); op "place"/"gate": the cluster's use of  *)
-(* the ring (TestVerifC17Place); op "elect": election traces               *)
-(* (TestVerifC17Elect), see CheckElect.                                    *)
-(* Ring vectors:  One case = one hash function (mode "table": the     *)
+(* the ring, "gatehist": the TopicMaster gate over a history with ring     *)
+(* changes and established sessions (TestVerifC17Place); "elect":          *)
+(* election traces (TestVerifC17Elect), see CheckElect.                    *)
+(* Ring vectors: one case = one hash function (mode "table": the           *)
 (* injected table; mode "crc": the default CRC32, table computed by the    *)
 (* harness with hash/crc32), one replica count, a list of lookup keys and  *)
 (* several listings (subsets / permutations / one listing with a duplicate *)
@@ -139,10 +140,26 @@ CheckPlace(v) ==
 CheckGate(v) ==
   (IF ToSet(v.a) # ToSet(v.b) /\ ~(v.routeRejected /\ v.masterRejected) THEN {"MismatchRefused"} ELSE {})
 
+\* v.reqs: a history of join/pub/meta/leave requests for two topics that proxy node B sends to master A through
+\* the real Cluster.TopicMaster, with ring changes at A (a node removed, re-added) in the middle.  For EVERY request,
+\* whether or not the multiplexing session of the (topic, B) pair was already established by an earlier accepted
+\* request: it is refused, and nothing reaches the hub or the topic, exactly when the two ring signatures differ
+\* ("nodes whose rings differ refuse each other's topic traffic"; once the rings agree again, traffic flows).
+\* Equal member sets must also mean equal signatures here (both sides build their rings with Cluster.rehash).
+CheckGateHist(v) ==
+  LET I == DOMAIN v.reqs
+      q(i) == v.reqs[i]
+      Differ(i) == q(i).sigA # q(i).sigB
+  IN At("MismatchRefused", {i \in I : Differ(i) /\ ~q(i).rejected})
+     \cup At("MismatchNothingForwarded", {i \in I : Differ(i) /\ (q(i).reachedHub \/ (q(i).sessionNow /\ ~q(i).hadSession))})
+     \cup At("MatchingRingsServed", {i \in I : ~Differ(i) /\ q(i).rejected})
+     \cup At("SameMembersSameSignature", {i \in I : (ToSet(q(i).membersA) = ToSet(q(i).membersB)) # ~Differ(i)})
+
 Check(v) == CASE v.op = "ring" -> CheckRing(v)
               [] v.op = "elect" -> CheckElect(v)
               [] v.op = "place" -> CheckPlace(v)
               [] v.op = "gate" -> CheckGate(v)
+              [] v.op = "gatehist" -> CheckGateHist(v)
               [] OTHER -> {}
 
 \* ------------------------------------------------------------------ binding
@@ -157,6 +174,9 @@ DivergeRing(v) ==
 
 Diverge(v) == CASE v.op = "ring" -> DivergeRing(v)
                 [] v.op = "gate" -> IF ToSet(v.a) = ToSet(v.b) /\ v.routeRejected THEN {"gate"} ELSE {}
+                \* an accepted request is expected to arrive at the (fake) hub / topic of the harness
+                [] v.op = "gatehist" -> IF \E i \in DOMAIN v.reqs : v.reqs[i].sigA = v.reqs[i].sigB /\ ~v.reqs[i].rejected /\ ~v.reqs[i].reachedHub
+                                        THEN {"gatehist-forward"} ELSE {}
                 [] OTHER -> {}    \* election traces are followed with the spec by Monitor_C17E
 
 Init == cur = 0 /\ bad = {} /\ div = {}
